@@ -296,6 +296,19 @@ func c10UploadAlways(c *Ctx) *RuleResult {
 			}
 			return true
 		})
+		if runErr == "" && u.Fn == p.LookupFunc(builderPkg, "localBuildExecutor.Execute") {
+			runners := runnerRunCallers(p)
+			ast.Inspect(u.Decl.Body, func(n ast.Node) bool {
+				as, ok := n.(*ast.AssignStmt)
+				if !ok || len(as.Rhs) != 1 || len(as.Lhs) < 2 {
+					return true
+				}
+				if call, ok := ast.Unparen(as.Rhs[0]).(*ast.CallExpr); ok && runners[calleeOf(info, call)] {
+					runErr = exprStr(as.Lhs[len(as.Lhs)-1])
+				}
+				return true
+			})
+		}
 		if runErr == "" {
 			continue
 		}
@@ -527,6 +540,20 @@ func uploadOutputsCallers(p *Program) map[*types.Func]bool {
 		return ok && calleeOf(x.Info(), call) == up
 	})
 	delete(m, up)
+	delete(m, p.LookupFunc(builderPkg, "localBuildExecutor.Execute"))
+	return m
+}
+
+// runnerRunCallers: unexported functions of the builder package that call the runner's Run.
+func runnerRunCallers(p *Program) map[*types.Func]bool {
+	m := mayDo(p.UnitsIn(builderPkg), func(x *FuncUnit, n ast.Node) bool {
+		call, ok := n.(*ast.CallExpr)
+		if !ok {
+			return false
+		}
+		sel, ok := ast.Unparen(call.Fun).(*ast.SelectorExpr)
+		return ok && sel.Sel.Name == "Run" && strings.HasSuffix(exprStr(sel.X), ".runner")
+	})
 	delete(m, p.LookupFunc(builderPkg, "localBuildExecutor.Execute"))
 	return m
 }
